@@ -107,7 +107,7 @@ func (m *targetM) update(w *world, idx []string, ts int64, val, noti string, ato
 			}
 		}
 		nl := leafM{ts: ts, val: val, noti: noti, atomic: atomic}
-		if !atomic && !old.atomic && w.cfg.eventDriven && old.val == val {
+		if !atomic && !old.atomic && w.cfg.eventDriven && old.val == val && !strings.HasPrefix(val, notComparable) {
 			nl.tsStale = true
 			m.leaves[k] = nl
 			return "", false, delta{suppressed: 1}
